@@ -16,7 +16,9 @@
 (*                    ("ok" = admitted).                                   *)
 (*                                                                         *)
 (* The state machine has one action, Submit: the chain state `st` gains    *)
-(* the deployment iff Verdict = "ok".  The properties (C19):               *)
+(* the deployment iff Verdict = "ok" (an update-deployment message, the    *)
+(* other writer of a field C19 talks about, replaces the version of the    *)
+(* base deployment iff UVerdict = "ok").  The properties (C19):            *)
 (*   AcceptedOnlyWithin   result = "ok" => WithinLimits(message)           *)
 (*   StoredWithinLimits   every stored deployment is WithinLimits          *)
 (*   RejectedNoEffect     [][result' # "ok" => st' = st]_vars              *)
@@ -51,6 +53,7 @@ CONSTANTS
     MinUnitPrice, MaxUnitPrice,
     MaxGroupCount, MaxGroupUnits,
     VersionLen, MinDeposit, Funds,
+    BaseDSeq,        \* sequence number of the deployment that exists in the base state
     MidCPU, MidMem, MidSto, MidOff, MidCount, MidPrice, MidDeposit,  \* interior points (seed-chosen)
     BuildSteps       \* simulation: number of construction steps of a random message
 
@@ -246,7 +249,24 @@ SubmitRel(m, dseq, s, res, t) ==
                  accounts |-> s.accounts + 1, bal |-> s.bal - m.deposit.a]
            ELSE s
 
-P_AcceptedOnlyWithin(res, m) == res = "ok" => WithinLimits(m)
+\* MsgUpdateDeployment: ValidateBasic (id, version) then the handler (exists, active); only the version is kept,
+\* the groups the message carries are ignored.  idc = "exists" addresses the base deployment, s.deps[1].
+UVerdict(m, s) ==
+    IF m.idc = "badowner" THEN "id-owner"
+    ELSE IF m.idc = "zero" THEN "id-dseq"
+    ELSE IF m.version = 0 THEN "empty-version"
+    ELSE IF m.version # VersionLen THEN "bad-version"
+    ELSE IF m.idc # "exists" THEN "not-found"
+    ELSE IF s.deps[1].state # "active" THEN "closed"
+    ELSE "ok"
+
+UpdateRel(m, s, res, t) ==
+    /\ res = UVerdict(m, s)
+    /\ t = IF res = "ok" THEN [s EXCEPT !.deps[1].version = m.version] ELSE s
+
+StepRel(m, dseq, s, res, t) == IF m.kind = "create" THEN SubmitRel(m, dseq, s, res, t) ELSE UpdateRel(m, s, res, t)
+
+P_AcceptedOnlyWithin(res, m) == (res = "ok" /\ m.kind = "create") => WithinLimits(m)
 P_StoredWithin(deps)         == \A i \in DOMAIN deps : WithinLimits(deps[i])
 P_RejectedNoEffect(res, s, t) == res # "ok" => t = s
 
@@ -281,7 +301,7 @@ BaseUnit == [cpu |-> V("cpu", MinUnitCPU, 0), mem |-> V("mem", MinUnitMem, 0), s
              count |-> MinUnitCount, price |-> N(MinUnitPrice), pdenom |-> Denom]
 GName(i) == "g" \o ToString(i)
 BaseGroup(i, n) == [name |-> GName(i), units |-> [j \in 1..n |-> BaseUnit]]
-BaseMsg(G, U) == [idc |-> "fresh", groups |-> [i \in 1..G |-> BaseGroup(i, U)], version |-> VersionLen,
+BaseMsg(G, U) == [kind |-> "create", idc |-> "fresh", groups |-> [i \in 1..G |-> BaseGroup(i, U)], version |-> VersionLen,
                   deposit |-> N(MinDeposit), ddenom |-> DepositDenom]
 
 SetField(m, gi, ui, f, c) == [m EXCEPT !.groups[gi].units[ui][f] = c]
@@ -366,16 +386,28 @@ F_mix == IF "mix" \notin Fams THEN {} ELSE
                   SetField(BaseMsg(1, 1), 1, 1, "cpu", V("cpu", MaxUnitCPU, 1)),
                   SetField(BaseMsg(1, 1), 1, 1, "price", N(MaxUnitPrice + 1))}}
 
+\* F9 update-deployment: id x version length x the groups the message carries (ignored by the handler: whatever
+\* they are, the stored deployment must stay within limits and keep a version of the right length)
+F_update == IF "update" \notin Fams THEN {} ELSE
+    {[kind |-> "update", idc |-> i, groups |-> g, version |-> v, deposit |-> Lin(0, 0), ddenom |-> ""] :
+        i \in IdClasses, v \in VersionClasses,
+        g \in {<<>>, BaseMsg(1, 1).groups, BaseMsg(MaxGroupCount + 1, 1).groups,
+               SetField(BaseMsg(1, 1), 1, 1, "cpu", V("cpu", MaxUnitCPU, 1)).groups,
+               [BaseMsg(2, 1) EXCEPT !.groups[2].name = GName(1)].groups}}
+
 Tag(f, S) == {[fam |-> f, m |-> x, n |-> 0] : x \in S}
-AllFams == {"shapes", "single", "dep", "names", "totals", "pairs", "cross", "mix"}
+AllFams == {"shapes", "single", "dep", "names", "totals", "pairs", "cross", "mix", "update"}
 Family(f) == CASE f = "shapes" -> F_shapes [] f = "single" -> F_single [] f = "dep" -> F_dep [] f = "names" -> F_names
                [] f = "totals" -> F_totals [] f = "pairs" -> F_pairs [] f = "cross" -> F_cross [] f = "mix" -> F_mix
+               [] f = "update" -> F_update
 Cover == UNION {Tag(f, Family(f)) : f \in Fams \cap AllFams}
 
 -----------------------------------------------------------------------------
 (* Behaviours: each enumerated message is submitted to the base chain state *)
 
-BaseState == [deps |-> <<>>, orders |-> 0, accounts |-> 0, bal |-> Funds]
+\* the base state: one deployment (everything at its minimum) by the signer, its order and its escrow account
+BaseDep == NewDep([BaseMsg(1, 1) EXCEPT !.groups[1].name = "base"], BaseDSeq)
+BaseState == [deps |-> <<BaseDep>>, orders |-> 1, accounts |-> 1, bal |-> Funds]
 
 Init == /\ cur \in Cover
         /\ phase = "submit"
@@ -384,7 +416,7 @@ Init == /\ cur \in Cover
 
 Submit == /\ phase = "submit"
           /\ phase' = "done"
-          /\ SubmitRel(cur.m, 1, st, result', st')
+          /\ StepRel(cur.m, BaseDSeq + 1, st, result', st')
           /\ UNCHANGED cur
 
 Next == Submit
@@ -395,16 +427,17 @@ AcceptedOnlyWithin == phase = "done" => P_AcceptedOnlyWithin(result, cur.m)
 StoredWithinLimits == P_StoredWithin(st.deps)
 RejectedNoEffect   == [][P_RejectedNoEffect(result', st, st')]_vars
 \* the procedure against the oracle, on every enumerated message (J1 proper)
-AdmitImpliesWithin == Admit(cur.m) => WithinLimits(cur.m)
+AdmitImpliesWithin == (cur.m.kind = "create" /\ Admit(cur.m)) => WithinLimits(cur.m)
 
 \* J2 export: one line per enumerated message (evaluated once per generated successor)
 ExportMsg == (phase = "submit" /\ phase' = "done") =>
-                PrintT(ToJson([fam |-> cur.fam, m |-> cur.m, verdict |-> result', within |-> WithinLimits(cur.m)]))
+                PrintT(ToJson([fam |-> cur.fam, m |-> cur.m, verdict |-> result',
+                               within |-> (cur.m.kind = "create" => WithinLimits(cur.m))]))
 
 -----------------------------------------------------------------------------
 (* Simulation: random messages from the full product space, built field by field *)
 
-EmptyMsg == [idc |-> "fresh", groups |-> <<>>, version |-> VersionLen, deposit |-> N(MinDeposit), ddenom |-> DepositDenom]
+EmptyMsg == [kind |-> "create", idc |-> "fresh", groups |-> <<>>, version |-> VersionLen, deposit |-> N(MinDeposit), ddenom |-> DepositDenom]
 BuildInit == /\ cur = [fam |-> "random", m |-> EmptyMsg, n |-> 0]
              /\ phase = "build"
              /\ st = BaseState
